@@ -816,4 +816,91 @@ pub mod vx_export {
         }
         Ok(C12Outcome { p1, p2, final_epoch: fin.epoch(), audits_ok, a_ok: ok[0], b_ok: ok[1] })
     }
+
+    // ---- C01 (BOUNDED differential check): the directory's root hash against an INDEPENDENT computation of the hash of the canonical
+    // compressed binary trie over the leaves the statement lists (written from the statement and the crate documentation, sharing only
+    // the configuration's hash primitives and the VRF with the code under test)
+    fn c01_bit(l: &NodeLabel, i: u32) -> u8 { (l.label_val[(i / 8) as usize] >> (7 - (i % 8))) & 1 }
+    fn c01_prefix(l: &NodeLabel, len: u32) -> NodeLabel {
+        let mut v = [0u8; 32];
+        for i in 0..len { if c01_bit(l, i) == 1 { v[(i / 8) as usize] |= 1 << (7 - (i % 8)); } }
+        NodeLabel::new(v, len)
+    }
+    /// (label of the subtree root, the value its parent hashes) of the canonical trie over `leaves` (all 256-bit labels, distinct), non-empty
+    fn c01_subtree<TC: Configuration>(leaves: &[(NodeLabel, AzksValue, u64)]) -> (NodeLabel, AzksValue) {
+        if leaves.len() == 1 {
+            let (l, v, e) = leaves[0];
+            return (l, AzksValue(TC::hash_leaf_with_commitment(v, e).0));
+        }
+        let mut lcp = 0u32;
+        while lcp < 256 && leaves.iter().all(|x| c01_bit(&x.0, lcp) == c01_bit(&leaves[0].0, lcp)) { lcp += 1; }
+        let left: Vec<_> = leaves.iter().filter(|x| c01_bit(&x.0, lcp) == 0).cloned().collect();
+        let right: Vec<_> = leaves.iter().filter(|x| c01_bit(&x.0, lcp) == 1).cloned().collect();
+        let (ll, lv) = c01_subtree::<TC>(&left);
+        let (rl, rv) = c01_subtree::<TC>(&right);
+        (c01_prefix(&leaves[0].0, lcp), TC::compute_parent_hash_from_children(&lv, &ll.value::<TC>(), &rv, &rl.value::<TC>()))
+    }
+    fn c01_root_hash<TC: Configuration>(leaves: &[(NodeLabel, AzksValue, u64)]) -> crate::Digest {
+        if leaves.is_empty() { return TC::compute_root_hash_from_val(&TC::empty_root_value()); }
+        let side = |b: u8| -> (NodeLabel, AzksValue) {
+            let sub: Vec<_> = leaves.iter().filter(|x| c01_bit(&x.0, 0) == b).cloned().collect();
+            if sub.is_empty() { (TC::empty_label(), TC::empty_node_hash()) } else { c01_subtree::<TC>(&sub) }
+        };
+        let (ll, lv) = side(0);
+        let (rl, rv) = side(1);
+        TC::compute_root_hash_from_val(&TC::compute_parent_hash_from_children(&lv, &ll.value::<TC>(), &rv, &rl.value::<TC>()))
+    }
+    /// Runs a seeded random history of `steps` publish calls over `nlabels` labels (batches of 1..=4 entries; some re-submit current
+    /// values only, some name a label twice) and after every call compares (epoch, root hash) with the statement of C01.
+    pub async fn c01_history<TC: Configuration>(seed: u64, steps: usize, nlabels: u64, parallel: bool) -> Result<Vec<String>, AkdError> {
+        let vrf = HardCodedAkdVRF {};
+        let ck = TC::hash(&vrf.retrieve().await?);
+        let dir = Directory::<TC, _, _>::new(StorageManager::new_no_cache(AsyncInMemoryDatabase::new()), vrf.clone(),
+            if parallel { AzksParallelismConfig::default() } else { AzksParallelismConfig::disabled() }).await?;
+        let mut rng = seed.wrapping_mul(0x9E3779B97F4A7C15) | 1;
+        let mut next = move || { rng ^= rng << 13; rng ^= rng >> 7; rng ^= rng << 17; rng };
+        let mut state: HashMap<u64, (u64, Vec<u8>)> = HashMap::new();   // label index -> (version, current value)
+        let mut leaves: Vec<(NodeLabel, AzksValue, u64)> = vec![];
+        let mut epoch = 0u64;
+        let mut bad = vec![];
+        for step in 0..steps {
+            let kind = next() % 8;
+            let n = 1 + (next() % 4) as usize;
+            let mut batch: Vec<(u64, Vec<u8>)> = vec![];
+            for _ in 0..n {
+                let l = next() % nlabels;
+                if batch.iter().any(|b| b.0 == l) { continue; }
+                let v = if kind == 0 { state.get(&l).map(|s| s.1.clone()).unwrap_or_else(|| vec![1]) } else { format!("v{}-{}", step, next() % 3).into_bytes() };
+                batch.push((l, v));
+            }
+            let duplicate = kind == 1 && !batch.is_empty();
+            if duplicate { let d = (batch[0].0, b"other".to_vec()); batch.push(d); }
+            let name = |l: u64| AkdLabel(format!("label-{l}").into_bytes());
+            let r = dir.publish(batch.iter().map(|(l, v)| (name(*l), AkdValue(v.clone()))).collect()).await;
+            if duplicate {
+                if r.is_ok() { bad.push(format!("step {step}: a batch that names a label twice was accepted")); }
+            } else {
+                // the statement: entries whose value differs from the current one (or whose label is new) change the directory
+                let changed: Vec<(u64, Vec<u8>)> = batch.iter().filter(|(l, v)| state.get(l).map(|s| &s.1 != v).unwrap_or(true)).cloned().collect();
+                if !changed.is_empty() { epoch += 1; }
+                for (l, v) in changed {
+                    let ver = state.get(&l).map(|s| s.0 + 1).unwrap_or(1);
+                    if ver > 1 {
+                        let sl = vrf.get_node_label::<TC>(&name(l), VersionFreshness::Stale, ver - 1).await?;
+                        leaves.push((sl, TC::stale_azks_value(), epoch));
+                    }
+                    let fl = vrf.get_node_label::<TC>(&name(l), VersionFreshness::Fresh, ver).await?;
+                    leaves.push((fl, TC::compute_fresh_azks_value(&ck, &fl, ver, &AkdValue(v.clone())), epoch));
+                    state.insert(l, (ver, v));
+                }
+                if let Err(e) = &r { bad.push(format!("step {step}: publish failed: {e}")); }
+            }
+            let eh = dir.get_epoch_hash().await?;
+            if eh.epoch() != epoch { bad.push(format!("step {step}: the directory is at epoch {} but {} publishes changed a value", eh.epoch(), epoch)); }
+            else if eh.hash() != c01_root_hash::<TC>(&leaves) { bad.push(format!("step {step} (epoch {epoch}, {} leaves): the root hash is not the hash of the canonical trie over the leaves the history prescribes", leaves.len())); }
+            if let (Ok(ret), false) = (&r, duplicate) { if ret.epoch() != eh.epoch() || ret.hash() != eh.hash() { bad.push(format!("step {step}: publish returned a pair other than the directory's epoch hash")); } }
+            if bad.len() > 3 { break; }
+        }
+        Ok(bad)
+    }
 }
